@@ -65,6 +65,8 @@ func (fe *FE) addOb(st *State, kind, label string, tags []string, goal, src stri
 	fe.Obs = append(fe.Obs, ob)
 }
 
+var blockSmoke = os.Getenv("GOVC_BLOCKSMOKE") != ""
+
 func (fe *FE) smoke(st *State, label string) {
 	name := fe.FnName + ":smoke:" + label
 	if fe.prefixes[name] {
@@ -450,6 +452,17 @@ func (fe *FE) runBlock(st *State, b, pred *ssa.BasicBlock) {
 		return
 	}
 	st.curBlock = b
+	if blockSmoke && len(st.frames) == 0 && !fe.scanning {
+		// diagnostic (GOVC_BLOCKSMOKE=1): up to 4 feasibility probes per basic block; a block whose probes are all
+		// vacuous is never really checked
+		if fe.blockProbes == nil {
+			fe.blockProbes = map[int]int{}
+		}
+		if fe.blockProbes[b.Index] < 4 {
+			fe.blockProbes[b.Index]++
+			fe.smoke(st, fmt.Sprintf("block%d.%d", b.Index, fe.blockProbes[b.Index]))
+		}
+	}
 	// leaving a loop (exit edge, break, ...): its exit clauses must hold
 	if pred != nil && len(st.frames) == 0 {
 		for _, h := range fe.loopOrd {
